@@ -191,8 +191,10 @@ func ruleBitsKey(sym string) func(a, b pred.Val) (string, bool) {
 }
 
 // ruleC03Gate: decision table of sem.unmarshalText (tag gate, numeric components, captures) and the entry points.
-func ruleC03Gate(e *Env) {
-	const rule = "C03.gate"
+func ruleC03Gate(e *Env) { ruleSemGate(e, "C03.gate", "C03.num") }
+
+// ruleSemGate: the decision table of sem.unmarshalText and the field ← capture mapping, filed under the given rule names.
+func ruleSemGate(e *Env, rule, numRule string) {
 	ut := e.Fn(rule, "sem", "unmarshalText")
 	if ut == nil {
 		return
@@ -224,7 +226,7 @@ func ruleC03Gate(e *Env) {
 			return 1, true, true
 		case as == "*sem.MaxInputLength" && bs == "0":
 			return 0, true, true
-		case strings.HasPrefix(as, "len((*regexp.Regexp).FindSubmatch(") && bs == "0":
+		case (strings.HasPrefix(as, "len((*regexp.Regexp).FindSubmatch(") || strings.HasPrefix(as, "len((*regexp.Regexp).FindStringSubmatch(")) && bs == "0":
 			return 1, true, true
 		}
 		return 0, false, false
@@ -267,8 +269,15 @@ func ruleC03Gate(e *Env) {
 		if isV == 1 {
 			subject = "slice[1:](input)"
 		}
+		// sibling idioms: the pattern applied to the bytes (FindSubmatch) or to their string form (FindStringSubmatch)
+		find := "FindSubmatch"
+		for k := range lf.Assign {
+			if strings.Contains(k, "(*regexp.Regexp).FindStringSubmatch(") {
+				find = "FindStringSubmatch"
+			}
+		}
 		parseErr := func(k int) string {
-			return fmt.Sprintf("nil? strconv.ParseUint#1((*regexp.Regexp).FindSubmatch(*sem.%s,%s)[%d],10,64)", e.vname("sem", "pattern"), subject, k)
+			return fmt.Sprintf("nil? strconv.ParseUint#1((*regexp.Regexp).%s(*sem.%s,%s)[%d],10,64)", find, e.vname("sem", "pattern"), subject, k)
 		}
 		want := "?"
 		switch {
@@ -310,20 +319,20 @@ func ruleC03Gate(e *Env) {
 		// C03.num: the success value
 		sv, ok := t[0].(*pred.StructV)
 		if !ok || len(sv.Fields) != 5 {
-			e.S.Unk("C03.num", site, construct, "success value "+t[0].String()+" is not a Ver", e.Pos(ut))
+			e.S.Unk(numRule, site, construct, "success value "+t[0].String()+" is not a Ver", e.Pos(ut))
 			continue
 		}
 		for i, f := range sv.Fields {
-			cap := fmt.Sprintf("(*regexp.Regexp).FindSubmatch(*sem.%s,%s)[%d]", e.vname("sem", "pattern"), subject, i+1)
+			cap := fmt.Sprintf("(*regexp.Regexp).%s(*sem.%s,%s)[%d]", find, e.vname("sem", "pattern"), subject, i+1)
 			wantF := cap
 			if i < 3 {
 				wantF = "strconv.ParseUint#0(" + cap + ",10,64)"
 			}
 			c2 := fmt.Sprintf("%s (%s)", fieldNames[i], subject)
 			if f.String() == wantF {
-				e.S.Ok("C03.num", site, c2, fieldNames[i]+" = "+map[bool]string{true: "ParseUint(capture, 10, 64)", false: "string(capture)"}[i < 3]+fmt.Sprintf(" of capture %d", i+1), e.Pos(ut))
+				e.S.Ok(numRule, site, c2, fieldNames[i]+" = "+map[bool]string{true: "ParseUint(capture, 10, 64)", false: "string(capture)"}[i < 3]+fmt.Sprintf(" of capture %d", i+1), e.Pos(ut))
 			} else {
-				e.S.Bad("C03.num", site, c2, fmt.Sprintf("%s = %s, documented %s", fieldNames[i], f, wantF), e.Pos(ut), "")
+				e.S.Bad(numRule, site, c2, fmt.Sprintf("%s = %s, documented %s", fieldNames[i], f, wantF), e.Pos(ut), "")
 			}
 		}
 	}
